@@ -11,6 +11,8 @@ import (
 	"path"
 	"path/filepath"
 	"reflect"
+	"sort"
+	"strings"
 
 	"github.com/akalin/gopar/rsec16"
 )
@@ -28,7 +30,32 @@ func (io defaultFileIO) ReadFile(path string) ([]byte, error) {
 }
 
 func (io defaultFileIO) FindWithPrefixAndSuffix(prefix, suffix string) ([]string, error) {
-	return filepath.Glob(prefix + "*" + suffix)
+	// Don't use filepath.Glob, since prefix may contain glob
+	// metacharacters.
+	dir, namePrefix := filepath.Split(prefix)
+	dirToOpen := dir
+	if dirToOpen == "" {
+		dirToOpen = "."
+	}
+	d, err := os.Open(dirToOpen)
+	if err != nil {
+		return nil, err
+	}
+	defer d.Close()
+
+	names, err := d.Readdirnames(-1)
+	if err != nil {
+		return nil, err
+	}
+	sort.Strings(names)
+
+	var matches []string
+	for _, name := range names {
+		if len(name) >= len(namePrefix)+len(suffix) && strings.HasPrefix(name, namePrefix) && strings.HasSuffix(name, suffix) {
+			matches = append(matches, dir+name)
+		}
+	}
+	return matches, nil
 }
 
 func (io defaultFileIO) WriteFile(path string, data []byte) error {
